@@ -295,11 +295,17 @@ def guard_le_const(p, upto, l, ev=None):
 
 SHAPE_ALLOW = [
     # (operator, predicate on (left, right) terms, reason)
-    ("+", lambda l, r: _is_field(l, "tile_id") and _is_field(_strip_cast(r), "run_length") and l[1] == _strip_cast(r)[1],
-     "entry.tile_id + entry.run_length of one layout entry: ids are distinct and ascending after the sort, so the sum is at most the next id"),
-    ("+=", lambda l, r: _is_field(l, "run_length") and r == C(1), "run_length += 1: needs more than 2^32 resident tiles with one content"),
-    ("+", lambda l, r: _is_field(l, "run_length") and r == C(1), "run_length + 1 (compound form)"),
+    ("+", lambda l, r: _is_field(l, "tile_id") and _is_field(_strip_cast(r), "run_length") and l[1] == _strip_cast(r)[1] and _is_last_of_vec(l[1]),
+     "last.tile_id + last.run_length for the last entry of the list being laid out: ids are distinct and ascending after the sort, so the sum is at most the next id"),
+    ("+=", lambda l, r: _is_field(l, "run_length") and r == C(1) and _is_last_of_vec(l[1]), "run_length += 1 on the last laid-out entry: needs more than 2^32 resident tiles with one content"),
+    ("+", lambda l, r: _is_field(l, "run_length") and r == C(1) and _is_last_of_vec(l[1]), "run_length + 1 (compound form) on the last laid-out entry"),
 ]
+
+
+def _is_last_of_vec(x):
+    """the term denotes `v.last_mut()` / `v.last()` of a vector (the layout pass's own entry list), not an entry decoded from input"""
+    x = unmut(x)
+    return is_call_to(x, lambda s: s.endswith(("::last_mut", "::last")))
 
 
 def _is_field(t, name):
